@@ -284,4 +284,10 @@ def run(repo, tier) -> Result:
     from .c19 import check_converters
 
     check_converters("C10", res, repo, rule="R-INPUT")
+    # bounds like Aroon's [0, 100] rest on distances inside the window: an absolute list position kept in a reading goes stale when
+    # the list is trimmed or rebuilt
+    from ..rules_calc import check_taint
+    from .common import shipped_analyses as _sa
+
+    check_taint("C10", res, repo, _sa(repo, res), branches_too=False)
     return res
